@@ -141,10 +141,9 @@ Section RoundTrip.
   Qed.
 End RoundTrip.
 
-(* NOT proved (checked by the correspondence only, byte for byte against
-   planTableConjoin and against real archives):
-     conjoin_roundtrip : contents (conjoin fs) = union of contents f (duplicates kept, lookup_any
-       then serves one of the equal copies) — the model conjoin_with is compared with the
-       implementation's conjoined file and all reads on every run;
-     archive_roundtrip : only the index search (prolly_bin_search_spec) is proved;
-     batches_cover (read batching arithmetic). *)
+(* Continued in ProofsConjoin.v (conjoin_is_table, conjoin_roundtrip) and ProofsArchive.v
+   (find_index_spec, archive_index_roundtrip, archive_roundtrip).
+   Still NOT proved for C06: the archive data section (byte spans, snappy / zstd payloads,
+   dictionaries), metadata and footer of archive files - real archives (including conversions
+   of more than maxSamples chunks, which go through the dictionary path) are compared with the
+   chunk set by the correspondence. *)
